@@ -345,8 +345,8 @@ class HTTPHeaders(collections.abc.MutableMapping[str, str]):
 
     def __delitem__(self, name: str) -> None:
         norm_name = _normalize_header(name)
-        del self._combined_cache[norm_name]
         del self._as_list[norm_name]
+        self._combined_cache.pop(norm_name, None)
 
     def __len__(self) -> int:
         return len(self._as_list)
